@@ -304,6 +304,11 @@ func drive(chk *Check, tier string) int {
 		if r.Sample != nil && len(samples) < 6 {
 			samples = append(samples, r.Sample)
 		}
+		if d := os.Getenv("VERIF_DUMPLOGS"); d != "" && len(r.Log) > 0 {
+			// development aid: with VERIF_KEEPLOG=1 VERIF_DUMPLOGS=<dir> every case's log is written out
+			_ = os.MkdirAll(d, 0o755)
+			_ = os.WriteFile(filepath.Join(d, fmt.Sprintf("%s-case%d.log", chk.ID, r.Case)), []byte(strings.Join(r.Log, "\n")+"\n"), 0o644)
+		}
 		if r.HarnessErr != "" {
 			harnessErrs++
 			fmt.Fprintf(os.Stderr, "harness error in case %d: %s\n", r.Case, r.HarnessErr)
